@@ -99,7 +99,9 @@ FindVerdict(c) == LET k == FindKey(c.ks, c.tok.kid, c.tok.alg) IN IF k = 0 THEN 
 
 \* rpDisc: the relying party's own verifier, its allowed algorithms taken from the provider's discovery document
 \* (rp.NewRelyingPartyOIDC with rp.WithSigningAlgsFromDiscovery; the document also lists OTHER algorithms for OTHER purposes)
-Entries == {"rp", "at", "hint", "rpDisc"}
+\* hintExpired: the same token with an expiry in the past, as id_token_hint: an expired hint is still believed (the answer
+\* IDTokenHintExpiredError carries the claims) - on exactly the same signature conditions
+Entries == {"rp", "at", "hint", "rpDisc", "hintExpired"}
 Outcomes(c) == {[e \in Entries |-> [v |-> Verdict(c), payloadOK |-> TRUE]] @@ [find |-> FindVerdict(c)]}
 
 RulesEntry(e, c, o) ==
